@@ -115,6 +115,83 @@ func vtmsm(a *edwards25519.Scalar, p *edwards25519.Point, b *edwards25519.Scalar
 	}}
 }
 
+// opBattery: every operation class of the three types on the thread's own
+// values (nothing is shared between threads on a correct tree).
+func opBattery(seed int64) []call {
+	enc := func(p ref.Pt) []byte { e := ref.Encode(p); return e[:] }
+	mkS := func(v *big.Int) *edwards25519.Scalar {
+		b := ref.LE32(ref.SRed(v))
+		s, _ := new(edwards25519.Scalar).SetCanonicalBytes(b[:])
+		return s
+	}
+	pm := ref.Add(ref.Torsion()[int(seed)%8], ref.Mul(big.NewInt(100+seed), ref.Base()))
+	qm := ref.Mul(big.NewInt(7+seed), ref.Base())
+	pe, qe := enc(pm), enc(qm)
+	sa := new(big.Int).Add(alpha.GenericScalar, big.NewInt(seed))
+	fa := new(big.Int).Add(alpha.FieldValues(true)[13], big.NewInt(seed))
+	return []call{
+		{"decode/encode", func() []byte {
+			p, err := new(edwards25519.Point).SetBytes(pe)
+			if err != nil {
+				return []byte("decode error: " + err.Error())
+			}
+			q, _ := new(edwards25519.Point).SetBytes(qe)
+			out := append(p.Bytes(), p.BytesMontgomery()...)
+			out = append(out, new(edwards25519.Point).Add(p, q).Bytes()...)
+			out = append(out, new(edwards25519.Point).Subtract(p, q).Bytes()...)
+			out = append(out, new(edwards25519.Point).Negate(p).Bytes()...)
+			out = append(out, new(edwards25519.Point).MultByCofactor(p).Bytes()...)
+			out = append(out, byte(p.Equal(q)))
+			X, Y, Z, T := p.ExtendedCoordinates()
+			if r, err := new(edwards25519.Point).SetExtendedCoordinates(X, Y, Z, T); err == nil {
+				out = append(out, r.Bytes()...)
+			}
+			return out
+		}},
+		{"scalar ops", func() []byte {
+			a, b := mkS(sa), mkS(new(big.Int).Lsh(sa, 3))
+			out := new(edwards25519.Scalar).Add(a, b).Bytes()
+			out = append(out, new(edwards25519.Scalar).Multiply(a, b).Bytes()...)
+			out = append(out, new(edwards25519.Scalar).MultiplyAdd(a, b, a).Bytes()...)
+			out = append(out, new(edwards25519.Scalar).Invert(a).Bytes()...)
+			out = append(out, new(edwards25519.Scalar).Negate(a).Bytes()...)
+			w := append(a.Bytes(), b.Bytes()...)
+			if s, err := new(edwards25519.Scalar).SetUniformBytes(w); err == nil {
+				out = append(out, s.Bytes()...)
+			}
+			if s, err := new(edwards25519.Scalar).SetBytesWithClamping(w[:32]); err == nil {
+				out = append(out, s.Bytes()...)
+			}
+			return append(out, byte(a.Equal(b)))
+		}},
+		{"field ops", func() []byte {
+			x, y := alpha.ElemCanon(fa), alpha.ElemCanon(new(big.Int).Lsh(fa, 1))
+			out := new(field.Element).Multiply(&x, &y).Bytes()
+			out = append(out, new(field.Element).Add(&x, &y).Bytes()...)
+			out = append(out, new(field.Element).Subtract(&x, &y).Bytes()...)
+			out = append(out, new(field.Element).Square(&x).Bytes()...)
+			out = append(out, new(field.Element).Invert(&x).Bytes()...)
+			out = append(out, new(field.Element).Pow22523(&x).Bytes()...)
+			out = append(out, new(field.Element).Absolute(&x).Bytes()...)
+			out = append(out, new(field.Element).Mult32(&x, 121666).Bytes()...)
+			r, was := new(field.Element).SqrtRatio(&x, &y)
+			out = append(out, append(r.Bytes(), byte(was), byte(x.Equal(&y)), byte(x.IsNegative()))...)
+			if v, err := new(field.Element).SetWideBytes(append(x.Bytes(), y.Bytes()...)); err == nil {
+				out = append(out, v.Bytes()...)
+			}
+			return out
+		}},
+		{"scalar mults on own point", func() []byte {
+			p, _ := new(edwards25519.Point).SetBytes(pe)
+			a := mkS(sa)
+			out := new(edwards25519.Point).ScalarMult(a, p).Bytes()
+			out = append(out, new(edwards25519.Point).VarTimeMultiScalarMult([]*edwards25519.Scalar{a, a}, []*edwards25519.Point{p, p}).Bytes()...)
+			out = append(out, new(edwards25519.Point).MultiScalarMult([]*edwards25519.Scalar{a}, []*edwards25519.Point{p}).Bytes()...)
+			return out
+		}},
+	}
+}
+
 func scenarios() []scenario {
 	sharedReads := func() []call {
 		return []call{
@@ -134,6 +211,7 @@ func scenarios() []scenario {
 		{"S5 two cold VarTimeDouble + base mult", [][]call{{vtd(ka, ptA, kb)}, {vtd(kb, ptA, ka), sbm(k2)}}, false},
 		{"S6 different variable points per thread", [][]call{{vtd(ka, ptA, kb), vsm(k1, ptA)}, {vtd(kb, ptA2, ka), vsm(k2, ptA2)}}, false},
 		{"S7 multi-scalar routines on different points", [][]call{{msm(ka, ptA, kb, ptA2), vtmsm(kb, ptA, ka, ptA2)}, {vtmsm(ka, ptA2, kb, ptA), msm(kb, ptA2, ka, ptA)}, {sbm(k1)}}, true},
+		{"S8 every operation class on private values", [][]call{opBattery(1), opBattery(2), opBattery(3)}, true},
 	}
 }
 
@@ -444,7 +522,7 @@ func racePass(procs, goroutines int) *core.Fail {
 }
 
 func runC18(ctx *core.Ctx) {
-	ctx.Rule("stateless depth-first exploration of all schedules, up to a preemption bound, of 7 closed concurrent harnesses (2-3 threads, 1-4 calls each, all starting from a cold process image restored from a generated snapshot of every package-level variable) over the real library, instrumented at check time: sync/sync.atomic replaced by a shim whose operations are scheduling points and happens-before edges, plus a scheduling point and vector-clock race check before every statement that mentions a mutable package-level variable (classification recomputed from the tree). Oracle on every complete schedule: results equal the sequential ones (and the math/big model), no happens-before race, no deadlock, per-variable write counts equal the sequential execution's (constructed exactly once). states = scheduling points visited, transitions = thread steps executed, schedules = complete executions")
+	ctx.Rule("stateless depth-first exploration of all schedules, up to a preemption bound, of 8 closed concurrent harnesses (2-3 threads, 1-4 calls each, all starting from a cold process image restored from a generated snapshot of every package-level variable) over the real library, instrumented at check time: sync/sync.atomic replaced by a shim whose operations are scheduling points and happens-before edges, plus a scheduling point and vector-clock race check before every statement that mentions a mutable package-level variable (classification recomputed from the tree). Oracle on every complete schedule: results equal the sequential ones (and the math/big model), no happens-before race, no deadlock, per-variable write counts equal the sequential execution's (constructed exactly once). states = scheduling points visited, transitions = thread steps executed, schedules = complete executions")
 	ctx.Assume("scheduling points at synchronisation operations and at mentions of mutable package-level variables suffice (accesses through escaped pointers are covered by the value oracle and the sampled -race pass)",
 		"2-3 threads; more threads add no new kind of interaction for a once-only table (argument, not enumeration)",
 		"the Go memory model is approximated by sequential consistency plus vector-clock happens-before")
